@@ -1,6 +1,6 @@
 use proc_macro2::{Ident, Span, TokenStream, TokenTree};
 use quote::ToTokens;
-use syn::{DeriveInput, Path, Type};
+use syn::{ext::IdentExt, DeriveInput, Path, Type};
 
 #[inline]
 pub(crate) fn create_debug_map_builder() -> proc_macro2::TokenStream {
@@ -86,7 +86,7 @@ pub(crate) fn create_format_arg(
 fn fresh_ident(ast: &DeriveInput, base: &str) -> Ident {
     fn contains(token_stream: TokenStream, name: &str) -> bool {
         token_stream.into_iter().any(|token| match token {
-            TokenTree::Ident(ident) => ident == name,
+            TokenTree::Ident(ident) => ident.unraw() == name,
             TokenTree::Group(group) => contains(group.stream(), name),
             // paths may be given as string literals
             TokenTree::Literal(literal) => literal.to_string().contains(name),
